@@ -11,7 +11,9 @@ from .asyncchecks import _graphs, _hist_run, _hist_step
 ALL_MODES = [["mcs", True], ["mcs", False], ["gen", True], ["gen", False], ["topo", True], ["topo", False]]
 
 RUN_CLAUSE_PROPS = {
-    "ExactlyOnce_Seq": {"C06", "C07"}, "ExactlyOnce_MaskedSupervisorSlot": {"C06", "C07"}, "ExactlyOnce_MissingExecution": {"C06"}, "ExactlyOnce_WrongStep": {"C06", "C07"},
+    # a replayed step that executes with another sequence number / in another order than recorded does not "see the same sequence number" (C01)
+    "ExactlyOnce_Seq": {"C06", "C07", "C01"}, "ExactlyOnce_MaskedSupervisorSlot": {"C06", "C07"}, "ExactlyOnce_MissingExecution": {"C06", "C01"},
+    "ExactlyOnce_WrongStep": {"C06", "C07", "C01"},
     "ExactlyOnce_ExtraExecution": {"C06"},
     "StepEps": {"C09", "C01"}, "StepTs": {"C01", "C07", "C09"}, "StepParams": {"C09", "C01"}, "StepState": {"C01", "C09", "C13"},
     "StepRng": {"C01", "C09"}, "WindowAsScheduled": {"C01", "C08", "C07"}, "ReadsRing": {"C08", "C01"}, "ScheduledPayload": {"C08", "C01"},
@@ -179,7 +181,8 @@ def c01(tier, seed):
             return [ALL_MODES[i % 6] + [{}], ALL_MODES[(i + 3) % 6] + [{}]]
         return [m + [{}] for m in ALL_MODES]
 
-    jobs = _run_jobs_for(seed + 100, 5 if quick else 32, "c01g", runs_of, modes_of, match_async=True, fam=("slow_side_node", "slow_producer", "same_generation_pair"))
+    jobs = _run_jobs_for(seed + 100, 6 if quick else 32, "c01g", runs_of, modes_of, match_async=True,
+                         fam=("slow_side_node", "slow_producer", "same_generation_pair", "fast_node"))  # position 3 compiles GENERATIONAL in the quick tier
     # the async side of the pair: the same worker validates nothing about the threaded runtime; that is C02-C04's business. Here
     # the two probe logs are compared step by step (clauses MatchesAsync_*) and the compiled log must be a run of RexRun.
     results, run_items, vs, metas = _run_campaign(rep, jobs, {"C01"})
@@ -351,7 +354,7 @@ def c06_compiled(rep, tier, seed):
         return ([ALL_MODES[(i * 2) % 6] + [{}], ALL_MODES[(i * 2 + 3) % 6] + [{"skip_nonsup": i}]] if quick
                 else [m + [{}] for m in ALL_MODES] + [ALL_MODES[i % 6] + [{"skip_nonsup": i}], ALL_MODES[(i + 3) % 6] + [{"skip_nonsup": i + 1}]])
 
-    jobs = _run_jobs_for(seed + 300, 2 if quick else 12, "c06c", runs_of, modes_of)
+    jobs = _run_jobs_for(seed + 300, 3 if quick else 12, "c06c", runs_of, modes_of, fam=("slow_side_node", "fast_node"))  # position 1: GENERATIONAL + TOPOLOGICAL
     results, run_items, vs, metas = _run_campaign(rep, jobs, {"C06"})
     n = 0
     for (job, res, t), v in zip(run_items, vs):
